@@ -195,6 +195,7 @@ def ecv_item(tok: str, form: int):
 class Run:
     def __init__(self, salt: int, direct: bool):
         self.eq = gemlib.Equipment()
+        self.shadow = gemlib.shadow()      # isolation: a second handler with other tables under the same ids, same process
         h = self.eq.h
         self.direct, self.salt, self.nform = direct, salt, 0
         h.status_variables[30] = secsgem.gem.StatusVariable(30, "sv30", "u", V.U4)
@@ -484,6 +485,8 @@ def run_history(ops, salt, direct, gen=None, cfgb=False):
             if i >= len(ops):
                 break
             op = ops[i]
+            if i % 4 == 0:
+                run.shadow.step()      # the other handler moves on between the steps of the one under test
             out = run.op(op)
             st = run.state()
             answers.append(out + "@" + st)
@@ -550,6 +553,14 @@ def main():
     prefix = model_prefix(tc)
     res.notes.append(f"S2F15 pre-check variant detected on the implementation: typeCheck={int(tc)}")
     res.notes.append("S5F5 with an unknown or multi-valued ALID is answered S5F0 (KeyError/TypeError in the handler); the property text does not pin it, not judged")
+
+    probe_a, probe_b = gemlib.Equipment(), gemlib.Equipment()
+    shared = gemlib.shared_tables(probe_a.h, probe_b.h)
+    if shared:
+        res.violate("shared-mutable-table", f"two GemEquipmentHandler instances of one process share the table object(s) {shared}: what one equipment registers or changes shows up in the other", {"attributes": shared})
+    probe_a.close()
+    probe_b.close()
+    res.notes.append("isolation: every history runs next to a second handler (other tables, same ids) that moves on between the steps; two fresh handlers share no dict/list/set attribute")
 
     cases = []
     if a.replay:
